@@ -324,68 +324,17 @@ Definition nl_free (s : string) : bool := negb (contains_nl s).
 Definition onl_free (o : option string) : bool := match o with Some s => nl_free s | None => true end.
 Definition l_is_item (x : lelem) : bool := match x with LItem _ _ => true | LCom _ => false end.
 Definition r_is_item (x : relem) : bool := match x with RCom _ => false | _ => true end.
-Definition d_is_ret (x : delem) : bool := match x with DRet _ => true | _ => false end.
 
-(* what the grammar guarantees about the pair tree, as far as the comment bookkeeping depends on it *)
-Fixpoint shape_ok (i : item) : bool :=
-  let all := fix all (l : list item) : bool := match l with [] => true | x :: r => shape_ok x && all r end in
+(* [item_all P i]: P holds of the pair i and of every pair nested in it *)
+Fixpoint item_all (P : item -> bool) (i : item) : bool :=
+  let all := fix all (l : list item) : bool := match l with [] => true | x :: r => item_all P x && all r end in
+  P i &&
   match i with
   | IExpr _ g => all g
   | IList els =>
-      (fix go (l : list lelem) : bool :=
-         match l with
-         | [] => true
-         | LCom c :: r => nl_free c && go r
-         | LItem g eol :: r => all g && onl_free eol && go r
-         end) els
-  | IRecord els =>
-      (fix go (l : list relem) : bool :=
-         match l with
-         | [] => true
-         | RCom c :: r => nl_free c && go r
-         | RPairI k v eol :: r =>
-             match k with RKDyn inner => all inner | _ => true end && all v && onl_free eol && go r
-         | RShortI _ eol :: r => onl_free eol && go r
-         | RSpreadI g eol :: r => all g && onl_free eol && go r
-         end) els
-  | ILambda _ body => all body
-  | ICond c t e => all c && all t && all e
-  | IDo els =>
-      (* do_block = "do" "{" (comment | do_statement)* comment* return_statement "}" *)
-      (fix go (l : list delem) : bool :=
-         match l with
-         | [] => false                                   (* no return_statement *)
-         | [DRet g] => all g
-         | PrattTypes.DStmt g c :: r => all g && onl_free c && go r
-         | DComStmt s c :: r => nl_free s && match c with None => true | Some _ => false end && go r
-         | DCom s :: r => nl_free s && go r
-         | DRet _ :: _ => false                          (* a return_statement that is not the last pair *)
-         end) els
-  | IAssign _ v => all v
-  | IAccess inner => all inner
-  | ICall args =>
-      (fix go (l : list (list item)) : bool := match l with [] => true | g :: r => all g && go r end) args
-  | _ => true
-  end.
-Fixpoint shapes_ok (l : list item) : bool := match l with [] => true | x :: r => shape_ok x && shapes_ok r end.
-
-(* EXCLUSION (finding C09-empty-container): a list / record pair whose inner pairs are comments only, with at
-   least one comment: `pending_comments` is non-empty after the loop and there is no element to attach to *)
-Definition lels_attachable (els : list lelem) : bool :=
-  existsb l_is_item els || forallb l_is_item els.
-Definition rels_attachable (els : list relem) : bool :=
-  existsb r_is_item els || forallb r_is_item els.
-Fixpoint no_empty_container (i : item) : bool :=
-  let all := fix all (l : list item) : bool :=
-               match l with [] => true | x :: r => no_empty_container x && all r end in
-  match i with
-  | IExpr _ g => all g
-  | IList els =>
-      lels_attachable els &&
       (fix go (l : list lelem) : bool :=
          match l with [] => true | LCom _ :: r => go r | LItem g _ :: r => all g && go r end) els
   | IRecord els =>
-      rels_attachable els &&
       (fix go (l : list relem) : bool :=
          match l with
          | [] => true
@@ -402,7 +351,8 @@ Fixpoint no_empty_container (i : item) : bool :=
          | [] => true
          | PrattTypes.DStmt g _ :: r => all g && go r
          | DRet g :: r => all g && go r
-         | _ :: r => go r
+         | DComStmt _ _ :: r => go r
+         | DCom _ :: r => go r
          end) els
   | IAssign _ v => all v
   | IAccess inner => all inner
@@ -410,8 +360,75 @@ Fixpoint no_empty_container (i : item) : bool :=
       (fix go (l : list (list item)) : bool := match l with [] => true | g :: r => all g && go r end) args
   | _ => true
   end.
-Fixpoint no_empty_containers (l : list item) : bool :=
-  match l with [] => true | x :: r => no_empty_container x && no_empty_containers r end.
+Fixpoint items_all (P : item -> bool) (l : list item) : bool :=
+  match l with [] => true | x :: r => item_all P x && items_all P r end.
+Fixpoint lels_all (P : item -> bool) (l : list lelem) : bool :=
+  match l with [] => true | LCom _ :: r => lels_all P r | LItem g _ :: r => items_all P g && lels_all P r end.
+Fixpoint rels_all (P : item -> bool) (l : list relem) : bool :=
+  match l with
+  | [] => true
+  | RCom _ :: r => rels_all P r
+  | RPairI k v _ :: r =>
+      match k with RKDyn inner => items_all P inner | _ => true end && items_all P v && rels_all P r
+  | RShortI _ _ :: r => rels_all P r
+  | RSpreadI g _ :: r => items_all P g && rels_all P r
+  end.
+Fixpoint dels_all (P : item -> bool) (l : list delem) : bool :=
+  match l with
+  | [] => true
+  | PrattTypes.DStmt g _ :: r => items_all P g && dels_all P r
+  | DRet g :: r => items_all P g && dels_all P r
+  | DComStmt _ _ :: r => dels_all P r
+  | DCom _ :: r => dels_all P r
+  end.
+Fixpoint args_all (P : item -> bool) (l : list (list item)) : bool :=
+  match l with [] => true | g :: r => items_all P g && args_all P r end.
+
+(* what the grammar guarantees about ONE pair, as far as the comment bookkeeping depends on it:
+   - no comment text contains a line feed (comment = "//" ~ (!plain_newline ~ ANY)* );
+   - do_block = "do" "{" (comment | do_statement)* comment* return_statement "}": exactly one return_statement,
+     and it is the last inner pair;
+   - a do_statement that starts with a comment has no second comment (the first one runs to the line's end) *)
+Definition lelem_shape (x : lelem) : bool :=
+  match x with LCom c => nl_free c | LItem _ eol => onl_free eol end.
+Definition relem_shape (x : relem) : bool :=
+  match x with
+  | RCom c => nl_free c
+  | RPairI _ _ eol | RShortI _ eol | RSpreadI _ eol => onl_free eol
+  end.
+Fixpoint do_shape (l : list delem) : bool :=
+  match l with
+  | [] => false                                          (* no return_statement *)
+  | [DRet _] => true
+  | PrattTypes.DStmt _ c :: r => onl_free c && do_shape r
+  | DComStmt s c :: r => nl_free s && match c with None => true | Some _ => false end && do_shape r
+  | DCom s :: r => nl_free s && do_shape r
+  | DRet _ :: _ => false                                 (* a return_statement that is not the last pair *)
+  end.
+Definition shape_here (i : item) : bool :=
+  match i with
+  | IList els => forallb lelem_shape els
+  | IRecord els => forallb relem_shape els
+  | IDo els => do_shape els
+  | _ => true
+  end.
+Definition shape_ok : item -> bool := item_all shape_here.
+Definition shapes_ok : list item -> bool := items_all shape_here.
+
+(* EXCLUSION (finding C09-empty-container): a list / record pair whose inner pairs are comments only, with at
+   least one comment: `pending_comments` is non-empty after the loop and there is no element to attach to *)
+Definition lels_attachable (els : list lelem) : bool :=
+  existsb l_is_item els || forallb l_is_item els.
+Definition rels_attachable (els : list relem) : bool :=
+  existsb r_is_item els || forallb r_is_item els.
+Definition attachable_here (i : item) : bool :=
+  match i with
+  | IList els => lels_attachable els
+  | IRecord els => rels_attachable els
+  | _ => true
+  end.
+Definition no_empty_container : item -> bool := item_all attachable_here.
+Definition no_empty_containers : list item -> bool := items_all attachable_here.
 
 (* ------------------------------------------------------------------ 4. statements and the driver loop *)
 Section Driver.
@@ -488,6 +505,29 @@ Section Driver.
     flat_map (fun t => if is_rule PG_statement t
                        then match stmt_items t with Some g => [g] | None => [] end else []) l.
 End Driver.
+
+(* the item view reads every comment pair: the `comment` / `eol_comment` pairs of the tree are exactly the comment
+   texts of the token streams / statement fields the drivers and pairs_to_expr_with_comments look at
+   (decidable; tested by the C09P stream on every tree the interpreter produces) *)
+Fixpoint strs_eqb (a b : list string) : bool :=
+  match a, b with
+  | [], [] => true
+  | x :: a', y :: b' => String.eqb x y && strs_eqb a' b'
+  | _, _ => false
+  end.
+Definition stmt_view_comments (text : string) (t : tree grule) : list string :=
+  match tkids t with
+  | [] => []
+  | first :: _ =>
+      match trule first with
+      | PG_comment => [tspan text first]
+      | _ => items_comments (conv_kids text first)
+      end ++ opt_list (stmt_eol text t)
+  end.
+Definition forest_view_comments (text : string) (l : list (tree grule)) : list string :=
+  flat_map (fun t => if is_rule PG_statement t then stmt_view_comments text t else []) l.
+Definition forest_view_ok (text : string) (l : list (tree grule)) : bool :=
+  strs_eqb (forest_comments text l) (forest_view_comments text l).
 
 Definition forest_shape_ok (text : string) (l : list (tree grule)) : bool :=
   forallb shapes_ok (forest_items text l).
@@ -616,7 +656,8 @@ Definition show_all_c (text : string) : string :=
       "OK " +++ PegToItems.sjoin " ;; " (map show_stmt_c p) +++ " @@ " +++
       hexlist tc +++ " ## " +++ hexlist pc +++ " ## " +++
       (if forest_shape_ok text forest then "S" else "s") +++
-      (if forest_no_empty_container text forest then "N" else "n")
+      (if forest_no_empty_container text forest then "N" else "n") +++
+      (if forest_view_ok text forest then "V" else "v")
   | PCGlueErr => "GLUEERR"
   | PCReject => "REJECT"
   | PCPanic => "PANIC"
